@@ -8,11 +8,11 @@ from harness.core import Failure, lib_exception_failure
 
 
 class Stack:
-    def __init__(self, specs, frags=None, connect_client=True):
+    def __init__(self, specs, frags=None, connect_client=True, yield_drains=False):
         from indi.client.client import Client
 
         frags = frags or {}
-        self.net = net.Net()
+        self.net = net.Net(yield_drains=yield_drains)
         self.loop = self.net.loop
         self.dep = drivers.Deployment(specs, self.net.router)
         self.client = None
